@@ -5248,7 +5248,37 @@ class Arc(Curve):
                 self.pry *= other
             if other.determinant < 0:
                 self.sweep = -self.sweep
+            self._principal_axes()
         return self
+
+    def _principal_axes(self):
+        """
+        A matrix that is not a similarity (uneven scale of a rotated arc, skew) maps the two radii to conjugate
+        diameters of the new ellipse, they are no longer perpendicular. Everything else here, d() included, takes
+        prx and pry for the axes: turn them, within the same parameterization, until they are.
+        """
+        if self.center is None or self.prx is None or self.pry is None:
+            return
+        ux = self.prx.x - self.center.x
+        uy = self.prx.y - self.center.y
+        vx = self.pry.x - self.center.x
+        vy = self.pry.y - self.center.y
+        dot = ux * vx + uy * vy
+        uu = ux * ux + uy * uy
+        vv = vx * vx + vy * vy
+        if abs(dot) <= 1e-12 * (uu + vv):
+            return  # Perpendicular already.
+        t = atan2(2.0 * dot, uu - vv) / 2.0
+        cos_t = cos(t)
+        sin_t = sin(t)
+        self.prx = Point(
+            self.center.x + ux * cos_t + vx * sin_t,
+            self.center.y + uy * cos_t + vy * sin_t,
+        )
+        self.pry = Point(
+            self.center.x - ux * sin_t + vx * cos_t,
+            self.center.y - uy * sin_t + vy * cos_t,
+        )
 
     def __len__(self):
         return 5
